@@ -279,9 +279,12 @@ def canon(x):
 # --------------------------------------------------------------------------
 
 def load_findings(pid):
-    path = os.path.join(ROOT, 'KNOWN_FINDINGS.jsonl')
+    import glob
+    paths = [os.path.join(ROOT, 'KNOWN_FINDINGS.jsonl')] + sorted(glob.glob(os.path.join(ROOT, 'fixes', '*.findings.jsonl')))
     out = []
-    if os.path.exists(path):
+    for path in paths:
+        if not os.path.exists(path):
+            continue
         for ln in open(path):
             ln = ln.strip()
             if ln and not ln.startswith('#'):
